@@ -3,7 +3,7 @@
 //! input up to a non-zero scalar; under I/O faults success means a complete,
 //! equivalent program.
 
-use crate::cli::{self, CliResult, InFault, OutFault, Scratch};
+use crate::cli::{self, CliResult, InFault, OutFault, Scratch, SysPlan};
 use crate::decider::{hash_str, mix, Decider};
 use crate::framework::*;
 use crate::gatesim::{self, HCirc, HGate, C64, GK};
@@ -24,6 +24,9 @@ pub enum Mode {
     InProcess,
     ChildStdout,
     ChildFaults(InFault, OutFault),
+    /// the shipped binary under the system-call seam: short reads / writes, EINTR, errno failures
+    /// at decider-chosen calls on the input file, the -o file or stdout
+    ChildSys { plan: SysPlan, to_stdout: bool },
 }
 
 #[derive(Clone, Debug, Serialize, Deserialize, PartialEq)]
@@ -154,7 +157,7 @@ impl Property for C03 {
         "fault_enumeration"
     }
     fn rule(&self) -> String {
-        "CLI clause only. decider generates a circuit (1..5 qubits, 0..30 gates over the QASM-expressible unitary set incl. swap, xcx, ccx, ccz, rz/rx with denominators <= 16, zero-gate programs, several registers), prints it with the harness's own QASM printer, picks the strategy switch (--full/--flow/--clifford/none) and runs `quizx opt` in-process through -o, or the shipped binary as a child on stdout, or the child under an input fault (missing, directory, empty, torn at a statement boundary, torn mid token) and/or an output fault (ENOSPC, RLIMIT_FSIZE torn write, missing directory, directory target, stdout to /dev/full, broken pipe). Fault-free: exit 0, the output parses back (quizx's parser and the harness's), same qubit count, only h/rz/cz/cx/swap, unitary projectively equal to the input's by the harness's gate-matrix simulator. Under faults: success only with a complete program equivalent to the program the tool actually saw. Non-trivial: >=2 qubits, >=1 two-qubit gate, >=1 non-Clifford phase, output text differs from the input text. Distinct by (scenario digest, event digest).".into()
+        "CLI clause only. decider generates a circuit (1..5 qubits, 0..30 gates over the QASM-expressible unitary set incl. swap, xcx, ccx, ccz, rz/rx with denominators <= 16, zero-gate programs, several registers), prints it with the harness's own QASM printer, picks the strategy switch (--full/--flow/--clifford/none) and runs `quizx opt` in-process through -o, or the shipped binary as a child on stdout, or the child under an input fault (missing, directory, empty, torn at a statement boundary, torn mid token) and/or an output fault (ENOSPC, RLIMIT_FSIZE torn write, missing directory, directory target, stdout to /dev/full, broken pipe), or the child under the system-call seam (LD_PRELOAD shim: short reads, short writes, EINTR and errno failures EIO/ENOSPC/EDQUOT/EMFILE/EACCES/... at decider-chosen open/read/write calls on the input file, the -o file or stdout; long programs in a quarter of those runs). Fault-free: exit 0, the output parses back (quizx's parser and the harness's), same qubit count, only h/rz/cz/cx/swap, unitary projectively equal to the input's by the harness's gate-matrix simulator. Under faults: success only with a complete program equivalent to the program the tool actually saw (under the system-call seam the file on disk is complete, so that is the whole program; a failure after a short transfer or EINTR is counted as a probe, not a verdict). Non-trivial: >=2 qubits, >=1 two-qubit gate, >=1 non-Clifford phase, output text differs from the input text. Distinct by (scenario digest, event digest).".into()
     }
     fn assumptions(&self) -> Vec<String> {
         vec![
@@ -163,7 +166,7 @@ impl Property for C03 {
         ]
     }
     fn real_vs_stub(&self) -> Value {
-        json!({"real": ["clap parsing", "OptArgs::run", "openqasm parser on the real file", "to_graph, the chosen simplifier, gflow extraction, to_qasm", "fs::write / println!", "the shipped quizx binary for the child runs"], "stubbed": []})
+        json!({"real": ["clap parsing", "OptArgs::run", "openqasm parser on the real file", "to_graph, the chosen simplifier, gflow extraction, to_qasm", "fs::write / println!", "the shipped quizx binary for the child runs", "the kernel's open/read/write behind the LD_PRELOAD shim (the shim only decides how many bytes a call may transfer or which errno it returns; data always moves through the real system call)"], "stubbed": []})
     }
     fn sub_batches(&self) -> Vec<SubBatch> {
         vec![
@@ -174,6 +177,7 @@ impl Property for C03 {
             SubBatch { name: "dense", quick: 12_000, thorough: 300_000 },
             SubBatch { name: "child", quick: 1_500, thorough: 8_000 },
             SubBatch { name: "faults", quick: 3_000, thorough: 16_000 },
+            SubBatch { name: "sysfaults", quick: 3_000, thorough: 40_000 },
         ]
     }
     fn expected_probes(&self) -> Vec<&'static str> {
@@ -189,6 +193,9 @@ impl Property for C03 {
         } else if sub == "wide" {
             // more than nine qubits (two-digit indices), few gates; judged on random input states
             (10 + d.choose("wn", 3), d.choose("wng", 14))
+        } else if sub == "sysfaults" && d.coin("sys.long", 1, 4) {
+            // long programs: input and output larger than one buffer of the usual I/O wrappers
+            (3 + d.choose("sn", 3), 300 + d.choose("sng", 500))
         } else {
             (1 + d.choose("n", 5), d.choose("ng", 31))
         };
@@ -248,6 +255,10 @@ impl Property for C03 {
                     OutFault::None
                 };
                 Mode::ChildFaults(inf, outf)
+            }
+            "sysfaults" => {
+                let hard = d.coin("sys.hard", 1, 3);
+                Mode::ChildSys { plan: cli::gen_sysplan(d, hard), to_stdout: d.coin("sys.stdout", 1, 2) }
             }
             _ => Mode::InProcess,
         };
@@ -319,6 +330,68 @@ impl Property for C03 {
                     CliResult::Panic(m) => out.violations.push(Violation::new("panic", format!("{how}: {m}")).with("batch", sub).with("msg", super::c18::norm_msg(&m))),
                     CliResult::Budget => {}
                 }
+            }
+            Mode::ChildSys { plan, to_stdout } => {
+                out.engine = "child_process";
+                let bin = env.quizx_bin.clone().expect("QSIM_QUIZX_BIN not set");
+                let input = cli::prepare_input(&scratch, &header, &stmts, &InFault::None);
+                let mut tail: Vec<String> = vec!["opt".into(), input.to_string_lossy().to_string()];
+                tail.extend(strategy_args(sc.strategy));
+                let (res, events) = cli::run_child_sys(&bin, &tail, &scratch, plan, *to_stdout);
+                out.steps += 1 + events.len() as u64;
+                let mut fired = 0;
+                let mut hard = false;
+                for e in &events {
+                    out.ev_str(&format!("{}{} {} {}", e.op, e.tok, e.asked, e.result));
+                    if let Some(name) = e.fault_name() {
+                        out.fault(&name);
+                        fired += 1;
+                        hard |= e.is_hard_error();
+                    }
+                }
+                if fired == 0 {
+                    out.fault("sys_none_fired");
+                }
+                let how = format!("quizx opt {} ({}) under system-call plan {}", strategy_args(sc.strategy).join(" "), if *to_stdout { "stdout" } else { "-o" }, plan.env());
+                match res {
+                    // the input file is complete on disk whatever the reads did, so a reported success
+                    // is judged against the whole program: short transfers, EINTR and errors may make
+                    // the tool fail, never make it print something else
+                    CliResult::Ok(Some(text)) => {
+                        out.ev_str("ok");
+                        out.probe(if hard { "sys_success_after_errno_judged" } else if fired > 0 { "sys_success_under_transparent_faults_judged" } else { "sys_success_no_fault_fired" });
+                        let before = out.violations.len();
+                        judge_output(&sc.circ, &text, &how, sub, &mut out);
+                        if out.violations.len() > before && fired > 0 {
+                            for v in out.violations[before..].iter_mut() {
+                                v.class = format!("sys_{}", v.class);
+                            }
+                        }
+                    }
+                    CliResult::Ok(None) => out.violations.push(Violation::new("success_without_output", format!("{how}: exit 0 but the -o file cannot be read")).with("batch", sub)),
+                    CliResult::Err(e) => {
+                        out.ev_str("err");
+                        if fired == 0 {
+                            out.violations.push(Violation::new("unexpected_error", format!("{how}: {e}")).with("batch", sub));
+                        } else if hard {
+                            out.probe("fault_led_to_reported_failure");
+                        } else {
+                            // short transfers and EINTR are legal behaviour of read(2)/write(2) that callers are
+                            // expected to absorb; the property does not say so, hence a probe, not a verdict
+                            out.probe("sys_transparent_fault_led_to_failure");
+                        }
+                    }
+                    CliResult::Panic(m) => {
+                        out.ev_str("panic");
+                        if fired == 0 {
+                            out.violations.push(Violation::new("panic", format!("{how}: {m}")).with("batch", sub).with("msg", super::c18::norm_msg(&m)));
+                        } else {
+                            out.probe("fault_led_to_panic");
+                        }
+                    }
+                    CliResult::Budget => {}
+                }
+                out.nontrivial = fired > 0;
             }
             Mode::ChildFaults(inf, outf) => {
                 out.engine = "child_process";
@@ -467,6 +540,11 @@ impl Property for C03 {
         }
         if sc.strategy != Strategy::Default {
             c.push(Sc { strategy: Strategy::Default, ..sc.clone() });
+        }
+        if let Mode::ChildSys { plan, to_stdout } = &sc.mode {
+            for p in cli::shrink_sysplan(plan) {
+                c.push(Sc { mode: Mode::ChildSys { plan: p, to_stdout: *to_stdout }, ..sc.clone() });
+            }
         }
         c
     }
